@@ -206,7 +206,7 @@ def describe(t):
     if len(t) != 12:
         return {"raw": t}
     fk = t[2]
-    return {"attempt": KIND.get(t[0], t[0]), "config": {1: "noise", 2: "tls", 3: "noise+psk", 4: "tls+psk", 5: "noise+metrics"}.get(t[1] // 10, t[1] // 10),
+    return {"attempt": KIND.get(t[0], t[0]), "config": {1: "noise", 2: "tls", 3: "noise+psk", 4: "tls+psk", 5: "noise+metrics", 10: "noise, muxer negotiated by multistream after the handshake"}.get(t[1] // 10, t[1] // 10),
             "special": SPECIAL.get(t[1] % 10, t[1] % 10),
             "fault": ("on the peer's end: " if fk >= 100 else "on this end: ") + FAULT.get(fk % 100, str(fk)), "at_io_index": t[3],
             "reported_error": t[4], "raw_conn_closed": t[5], "usage_delta(conns,fd,mem,streams)": t[7:11], "goroutines_left": t[11]}
@@ -269,9 +269,13 @@ if __name__ == "__main__":
              "stall until deadline) and each I/O index k (all k for one configuration, first/last/sampled for the others in the quick tier; all in the "
              "thorough tier) one attempt; plus gater rejections at InterceptAccept/InterceptSecured on either side, an outbound dial with an empty peer "
              "ID, private network forced without PSK, metrics with a non-TCP raw conn. Two cases per attempt (one per end): error reported?, raw conn "
-             "closed by the code?, system+transient usage delta, goroutines left. Non-trivial = a fault was injected; distinct = distinct case lines. "
+             "closed by the code?, system+transient usage delta, goroutines left. A fifth configuration has no early muxer negotiation (the muxer is negotiated by multistream after the "
+             "handshake), so that every stage (security selection, handshake, muxer negotiation) has fault positions; stalls are injected at the first four, the middle and the last two read "
+             "indices in the quick tier. Every dial runs under a watchdog: a call that has not returned 25 s after its 400 ms context ended (both ends silent) is written as a case like any other "
+             "(raw conn not closed, usage not back, goroutines left), its sockets are closed under it, and after two such attempts the remaining fault positions are skipped; listener.Close and "
+             "Swarm.Close are bounded the same way. Non-trivial = a fault was injected; distinct = distinct case lines. "
              "Close race (kind 5): a real Swarm with the real resource manager is given 1-5 fake upgraded connections through Swarm.addConn from concurrent "
-             "goroutines, 0-3 Conn.NewStream each, random Conn.Close / Stream.Reset, while Swarm.Close runs at a seeded random point (seeded yields/sleeps); "
+             "goroutines, 0-3 Conn.NewStream each, random Conn.Close / Stream.Reset, while Swarm.Close runs at a seeded random point (seeded yields/sleeps); one connection in six has a muxer whose OpenStream blocks until the caller's context ends and its NewStream calls carry a 1-3 ms deadline (stream open ending in a deadline expiry inside the muxer); "
              "after everything returned: what each addConn/addStream answered, whether every fake conn / muxed stream was closed, Swarm.Conns(), system usage. "
              "The model (Close.v) is run on the schedule these answers determine and must end in the same per-item statuses. "
              "tcpreuse (kind 6): raw TCP clients against the real shared listener + gated listener + resource manager with only multistream registered (HTTP / TLS / unknown "
